@@ -221,6 +221,7 @@ def run(mod, tier, quick_s=25, thorough_s=600, chunk=300, extra_evidence=None):
             ok = all(replay_case(mod, f['case']) is not None for _ in range(1 if sig.startswith('termination:') else 3))
         if not ok and not sig.startswith('harness-error'):
             ev.inconclusive.append('failure %s did not reproduce 3x (%s)' % (sig, rp))
+            sys.stdout.write('INCONCLUSIVE: %s did not reproduce from %s\n' % (sig, rp))
             continue
         ev.violations += 1
         rcode = 1
